@@ -203,6 +203,7 @@ INVARIANT SubscribedAtDirectory
 INVARIANT ViewsNameRealHosts
 INVARIANT ReplicaConvergedIfStable
 INVARIANT DirectoryRepTrueIfStable
+INVARIANT AgentConvergedIfNeverDropped
 VIEW View
 ACTION_CONSTRAINT Edge
 """
@@ -220,6 +221,12 @@ def proto_project(w, nops, comps):
             t = m.msg.type
             if t == "subscribe_computation":
                 out.append({"t": "sub", "c": m.msg.computation, "a": "on" if m.msg.subscribe else "off"})
+            elif t == "subscribe_agent":
+                out.append({"t": "asub", "c": m.msg.agent, "a": "on" if m.msg.subscribe else "off"})
+            elif t == "publish_agent":
+                out.append({"t": "agAdded" if down else "pubA", "c": "", "a": m.msg.agents})
+            elif t == "unpublish_agent":
+                out.append({"t": "agRemoved" if down else "unpubA", "c": "", "a": m.msg.agent})
             elif t == "subscribe_replica":
                 out.append({"t": "rsub", "c": m.msg.replica, "a": "on" if m.msg.subscribe else "off"})
             elif t == "publish_replica":
@@ -233,7 +240,12 @@ def proto_project(w, nops, comps):
     disc = {a: w.w.agents[a].discovery for a in w.AG}
     cbs = {a: {c: list(dict.get(disc[a]._computation_cbs, c, ())) for c in comps} for a in w.AG}
     rcbs = {a: {c: list(dict.get(disc[a]._replicas_cbs, c, ())) for c in comps} for a in w.AG}
-    return {"vRep": {a: {c: sorted(dict.get(disc[a]._replicas_data, c, ())) for c in comps} for a in w.AG},
+    acbs = {a: {b: list(dict.get(disc[a]._agent_cbs, b, ())) for b in w.AG} for a in w.AG}
+    return {"vAg": {a: sorted(b for b in w.AG if b in disc[a]._agents_data) for a in w.AG},
+            "akey": {a: {b: dict.__contains__(disc[a]._agent_cbs, b) for b in w.AG} for a in w.AG},
+            "apcb": {a: {b: len(acbs[a][b]) for b in w.AG} for a in w.AG},
+            "dAg": sorted(b for b in w.AG if b in dd._agents_data),
+            "dSubA": {b: sorted(x.replace("_discovery_", "") for x in dict.get(dd._subscription_agents, b, ())) for b in w.AG},"vRep": {a: {c: sorted(dict.get(disc[a]._replicas_data, c, ())) for c in comps} for a in w.AG},
             "rkey": {a: {c: dict.__contains__(disc[a]._replicas_cbs, c) for c in comps} for a in w.AG},
             "rpcb": {a: {c: len(rcbs[a][c]) for c in comps} for a in w.AG},
             "dRep": {c: sorted(dict.get(dd.discovery._replicas_data, c, ())) for c in comps},
@@ -259,20 +271,21 @@ def protocol_part(v, quick, hist):
     from .. import replay as RP
     tot = {"edges": 0, "paths": 0, "steps": 0, "configs": []}
     # (replicas: 12 kinds of API calls instead of 7; the computation part alone goes one call deeper)
-    configs = [({"c1"}, 3, True), ({"c1"}, 4, False)] if quick else [({"c1"}, 5, True), ({"c1"}, 6, False), ({"c1", "c2"}, 4, False), ({"c1", "c2"}, 3, True)]
+    configs = [({"c1"}, 3, True, False), ({"c1"}, 3, False, True)] if quick else \
+        [({"c1"}, 5, True, False), ({"c1"}, 6, False, False), ({"c1", "c2"}, 4, False, False), ({"c1", "c2"}, 3, True, False), ({"c1"}, 4, False, True), ({"c1"}, 4, True, True)]
     order = "@<<" + ", ".join('"%s"' % a for a in list(set(AGENTS))) + ">>"     # the interpreter's iteration order of a set of agents
-    for comps, maxops, withrep in configs:
-        consts = dict(Agents=set(AGENTS), Comps=comps, MaxOps=maxops, WithReplicas=withrep, AgentOrder=order)
+    for comps, maxops, withrep, withag in configs:
+        consts = dict(Agents=set(AGENTS), Comps=comps, MaxOps=maxops, WithReplicas=withrep, WithAgents=withag, AgentOrder=order)
         g, res = RP.dump_edges("DiscoveryProtocol", PROTO_CFG, consts=consts, heap="6g")
         if res.violated or res.errors:
             raise MachineryError("DiscoveryProtocol.tla: %s %s" % (res.violated, res.errors[:2]))
         v.add_tlc(res, "exhaustive model checking of DiscoveryProtocol.tla (%d computation(s), at most %d API calls%s, all deliveries) + labelled edge dump" % (
-            len(comps), maxops, ", replicas included" if withrep else ""))
+            len(comps), maxops, (", replicas included" if withrep else "") + (", agent subscriptions / departures included" if withag else "")))
         cl = sorted(comps)
         init = proto_project(World(0), 0, cl)
         paths = g.cover(init, max_len=40)
         tot["edges"] += g.nedges
-        tot["configs"].append({"computations": len(comps), "max_api_calls": maxops, "replicas": withrep, "states": res.distinct, "edges": g.nedges, "paths": len(paths)})
+        tot["configs"].append({"computations": len(comps), "max_api_calls": maxops, "replicas": withrep, "agents": withag, "states": res.distinct, "edges": g.nedges, "paths": len(paths)})
         for pi, path in enumerate(paths):
             w = World(0)
             nops = 0
@@ -284,6 +297,9 @@ def protocol_part(v, quick, hist):
                 got = proto_project(w, nops, cl)
                 exp = dict(exp, **{f: {c: sorted(x) for c, x in exp[f].items()} for f in ("dSub", "dSubR", "dRep")})
                 exp["vRep"] = {a_: {c: sorted(x) for c, x in m_.items()} for a_, m_ in exp["vRep"].items()}
+                exp["vAg"] = {a_: sorted(x) for a_, x in exp["vAg"].items()}
+                exp["dAg"] = sorted(exp["dAg"])
+                exp["dSubA"] = {b_: sorted(x) for b_, x in exp["dSubA"].items()}
                 diff = RP.first_diff(got, exp)
                 if diff:
                     v.divergence("DiscoveryProtocol path %d step %d (%s): real objects differ from the model at %s" % (pi, k, a, diff))
@@ -293,9 +309,9 @@ def protocol_part(v, quick, hist):
         tot["paths"] += len(paths)
     # the statement, unrestricted
     cex = []
-    for inv in ("Converged", "DirectoryTrue", "ReplicaConverged", "DirectoryRepTrue"):
+    for inv in ("Converged", "DirectoryTrue", "ReplicaConverged", "DirectoryRepTrue", "AgentConverged"):
         res = tlc.run("DiscoveryProtocol", PROTO_CEX_CFG % inv, consts=dict(Agents=set(AGENTS), Comps={"c1"}, MaxOps=5, WithReplicas=inv.find("Rep") >= 0,
-                                                                            AgentOrder=order), workers=1)
+                                                                            WithAgents=inv.startswith("Agent"), AgentOrder=order), workers=1)
         acts = [st["act"] for st in (res.trace_json or [])[1:] if isinstance(st.get("act"), dict)]
         if not res.violated:
             v.notes.append("DiscoveryProtocol.tla no longer violates %s within 5 API calls" % inv)
@@ -310,15 +326,17 @@ def protocol_part(v, quick, hist):
         last = res.trace_json[-1]
         got = proto_project(w, 0, ["c1"])
         last = dict(last, dRep={c: sorted(x) for c, x in last["dRep"].items()}, vRep={a_: {c: sorted(x) for c, x in m_.items()} for a_, m_ in last["vRep"].items()})
-        for f in ("vHost", "dHost", "vRep", "dRep"):
+        last["vAg"] = {a_: sorted(x) for a_, x in last["vAg"].items()}
+        last["dAg"] = sorted(last["dAg"])
+        for f in ("vHost", "dHost", "vRep", "dRep", "vAg", "dAg"):
             if got[f] != last[f]:
                 # (on the unchanged tree this means the model is wrong; on a changed tree, that the code left the model)
                 v.divergence("DiscoveryProtocol.tla violates %s; the real objects, driven along TLC's counterexample, end with %s = %s where "
                              "the model has %s" % (inv, f, got[f], last[f]))
-        if inv in ("Converged", "ReplicaConverged"):          # (the Directory... ones are not part of the statement: they are root causes of findings)
+        if inv in ("Converged", "ReplicaConverged", "AgentConverged"):          # (the Directory... ones are not part of the statement: they are root causes of findings)
             cex.append((h["id"], inv, script))
         v.cov.setdefault("statement_counterexamples_reproduced_on_the_real_objects", []).append(
-            {"invariant": inv, "script": ["%s(%s,%s)" % (o["k"], o["a"], o["c"]) for o in script], "real_final": {f: got[f] for f in ("vHost", "dHost", "vRep", "dRep")}})
+            {"invariant": inv, "script": ["%s(%s,%s)" % (o["k"], o["a"], o["c"]) for o in script], "real_final": {f: got[f] for f in ("vHost", "dHost", "vRep", "dRep", "vAg", "dAg")}})
     v.cov["discovery_protocol_model"] = tot
     v.cov["replayed_paths"] = tot["paths"]
     v.cov["replayed_steps"] = tot["steps"]
